@@ -70,3 +70,7 @@ chk("C20", "E2-dfs", "exploration",
     "For every RPC of the client-facing services (authorised client) and the key-generation service (non-peer): the default message and every message with one field off default (two in thorough) over per-type boundary menus, each marshalled, decoded by the real protobuf library and handed to the real handler inside a worker process under a 16 GiB address-space limit, followed by a canary request; a worker death or hang is attributed to the announced case.",
     "Trusted: the gRPC transport layer is not exercised; explicitly encoded zero-length bytes decode to nil in the pinned protobuf library (verified) so they equal 'absent'.",
     "deviation-bounded exhaustive message enumeration against the real handlers with crash/hang detection in a worker process", "5/C20")
+chk("C19", "E5-grid", "exploration",
+    "A real API server (services/api/grpc with the repository's CA) on loopback; the full grid of all 16 RPC methods x credential kinds (plaintext, no client certificate, self-signed, other authority with and without its CA in the chain, each valid client, a valid peer) x wallets; unauthenticated callers must obtain nothing and change nothing (state digest over all records, locks, accounts, sessions); valid callers are served according to the permissions of the certificate's subject name.",
+    "Trusted: Go crypto/tls and x509; loopback TCP.",
+    "exhaustive method x credential grid over real TLS with state-digest oracle", "5/C19")
